@@ -113,6 +113,8 @@ type c08Hub struct {
 	foreign       map[int][]byte // phase -> raw message recorded in another run
 	recordFrom    group.MemberIndex
 	recorded      map[int][]byte
+	drip          *c08Drip
+	dripWG        sync.WaitGroup
 	seq           uint64
 	stats         map[string]int
 	lastSend      time.Time
@@ -188,6 +190,137 @@ func (h *c08Hub) releaseHeld(receiver group.MemberIndex, belowType int) {
 	h.mu.Unlock()
 	for _, e := range rel {
 		h.handOver(receiver, e.msg)
+	}
+}
+
+// c08Drip makes one receiver lag at a state boundary and then hands it the
+// messages of the NEXT phase one by one while it crosses the boundary: the
+// phase-`boundary` message of lagSender for receiver is kept back until the
+// phase-(boundary+1) messages of all other participants are waiting for the
+// receiver; then the kept message is handed over and the waiting ones follow
+// at the drawn offsets (ms). Every message is delivered exactly once (the
+// production transport filters retransmissions of a delivered message, so a
+// message a state drops is lost for good).
+type c08Drip struct {
+	receiver  group.MemberIndex
+	lagSender group.MemberIndex
+	boundary  int
+	offsets   map[group.MemberIndex]int // sender of the next-phase message -> ms after the kept message
+
+	lagMsg   *c08Msg
+	next     map[group.MemberIndex]*c08Msg
+	released bool
+}
+
+func (d *c08Drip) String() string {
+	if d == nil {
+		return "none"
+	}
+	var offs []string
+	for s, o := range d.offsets {
+		offs = append(offs, fmt.Sprintf("%d@+%dms", s, o))
+	}
+	sort.Strings(offs)
+	return fmt.Sprintf("receiver %d lags on phase %d of %d, phase %d dripped %v", d.receiver, d.boundary, d.lagSender, d.boundary+1, offs)
+}
+
+// dripIntercept takes a message addressed to the drip receiver out of the
+// normal flow if the drip plan covers it. Returns true when it did.
+func (h *c08Hub) dripIntercept(r, sender group.MemberIndex, ti int, typ string, raw []byte) bool {
+	d := h.drip
+	if d == nil || r != d.receiver || sender == r {
+		return false
+	}
+	isLag := ti == d.boundary && sender == d.lagSender
+	isNext := ti == d.boundary+1
+	if !isLag && !isNext {
+		return false
+	}
+	payload := h.newPayload(typ, raw)
+	if payload == nil {
+		return false
+	}
+	h.mu.Lock()
+	if d.released {
+		h.mu.Unlock()
+		return false
+	}
+	h.seq++
+	msg := &c08Msg{sender: fmt.Sprintf("seat-%d", sender), pubKey: h.pubKeys[sender], payload: payload, typ: typ, seq: h.seq}
+	if isLag {
+		d.lagMsg = msg
+	} else {
+		d.next[sender] = msg
+	}
+	ready := d.lagMsg != nil && len(d.next) == len(h.seats)-1
+	if ready {
+		d.released = true
+		h.stats["drip-released"]++
+	}
+	h.mu.Unlock()
+	if ready {
+		h.dripRelease()
+	}
+	return true
+}
+
+// dripRelease hands over the kept message and then the waiting ones at their
+// offsets. Timing only shapes the schedule.
+func (h *c08Hub) dripRelease() {
+	d := h.drip
+	h.handOver(d.receiver, d.lagMsg)
+	type item struct {
+		at  int
+		msg *c08Msg
+	}
+	var items []item
+	for s, m := range d.next {
+		items = append(items, item{d.offsets[s], m})
+	}
+	sort.Slice(items, func(i, j int) bool {
+		if items[i].at != items[j].at {
+			return items[i].at < items[j].at
+		}
+		return items[i].msg.seq < items[j].msg.seq
+	})
+	h.dripWG.Add(1)
+	go func() {
+		defer h.dripWG.Done()
+		start := time.Now()
+		for _, it := range items {
+			if wait := time.Duration(it.at)*time.Millisecond - time.Since(start); wait > 0 {
+				time.Sleep(wait)
+			}
+			h.handOver(d.receiver, it.msg)
+		}
+	}()
+}
+
+// dripAbandon releases whatever the drip plan keeps back (safety net for a
+// plan whose condition cannot be met any more).
+func (h *c08Hub) dripAbandon() {
+	d := h.drip
+	if d == nil {
+		return
+	}
+	h.mu.Lock()
+	if d.released || (d.lagMsg == nil && len(d.next) == 0) {
+		h.mu.Unlock()
+		return
+	}
+	d.released = true
+	h.stats["drip-abandoned"]++
+	var msgs []*c08Msg
+	if d.lagMsg != nil {
+		msgs = append(msgs, d.lagMsg)
+	}
+	for _, m := range d.next {
+		msgs = append(msgs, m)
+	}
+	h.mu.Unlock()
+	sort.Slice(msgs, func(i, j int) bool { return msgs[i].seq < msgs[j].seq })
+	for _, m := range msgs {
+		h.handOver(d.receiver, m)
 	}
 }
 
@@ -370,6 +503,9 @@ func (h *c08Hub) onSend(sender group.MemberIndex, typ string, raw []byte) {
 		}
 	}
 	for _, r := range h.seats {
+		if h.dripIntercept(r, sender, ti, typ, raw) {
+			continue
+		}
 		action := c08Normal
 		if r != sender {
 			action = h.plan[fmt.Sprintf("%d/%d/%d", sender, ti, r)]
@@ -454,6 +590,9 @@ func (h *c08Hub) pump(done <-chan struct{}) {
 				h.mu.Lock()
 				h.stats["stall-flush"]++
 				h.mu.Unlock()
+			}
+			if idle > 5*time.Second {
+				h.dripAbandon()
 			}
 		}
 	}
@@ -810,6 +949,7 @@ type c08SignCase struct {
 	// participants whose messages of OTHER signing sessions are mixed in
 	inject []group.MemberIndex
 	record group.MemberIndex // harness: keep this sender's first message of every phase
+	drip   *c08Drip
 }
 
 func (c *c08SignCase) describe() string {
@@ -825,7 +965,7 @@ func (c *c08SignCase) describe() string {
 	if len(sched) > 12 {
 		sched = append(sched[:12], fmt.Sprintf("...+%d", len(sched)-12))
 	}
-	return fmt.Sprintf("signers=%v msg=0x%s other-session-messages-of=%v schedule=%v", c.subset, c.message.Text(16), c.inject, sched)
+	return fmt.Sprintf("signers=%v msg=0x%s other-session-messages-of=%v drip=[%v] schedule=%v", c.subset, c.message.Text(16), c.inject, c.drip, sched)
 }
 
 type c08SignOutcome struct {
@@ -837,7 +977,34 @@ type c08SignOutcome struct {
 	recorded map[int][]byte
 }
 
-var c08SignBudget = time.Duration(verifkit.EnvInt("VERIF_C08_SIGN_BUDGET_S", 240)) * time.Second
+var c08FullSignBudget = time.Duration(verifkit.EnvInt("VERIF_C08_SIGN_BUDGET_S", 240)) * time.Second
+
+var (
+	c08StallMu        sync.Mutex
+	c08StallConfirmed bool          // a stuck run was confirmed against the full budget and a passing control
+	c08ControlTook    time.Duration // how long that control needed
+)
+
+// c08SignBudget is how long a signing run may take before it is compared with
+// a control run. The first stuck run of a process is established with the full
+// budget; once that happened (the process is going to fail anyway and rapid is
+// only minimising the example) the budget follows the measured speed of the
+// machine: 8 times what the passing control needed, at least 45 s.
+func c08SignBudget() time.Duration {
+	c08StallMu.Lock()
+	defer c08StallMu.Unlock()
+	if !c08StallConfirmed {
+		return c08FullSignBudget
+	}
+	b := 8 * c08ControlTook
+	if b < 45*time.Second {
+		b = 45 * time.Second
+	}
+	if b > c08FullSignBudget {
+		b = c08FullSignBudget
+	}
+	return b
+}
 
 // c08Sign runs signing.Execute for every member of the subset with the
 // arguments signingExecutor.sign derives from the stored signer.
@@ -875,6 +1042,10 @@ func c08Sign(w *c08Wallet, signers map[group.MemberIndex]*signer, c *c08SignCase
 	}
 	if c.record != 0 {
 		hub.recordFrom, hub.recorded = c.record, map[int][]byte{}
+	}
+	if c.drip != nil {
+		hub.drip = &c08Drip{receiver: c.drip.receiver, lagSender: c.drip.lagSender, boundary: c.drip.boundary,
+			offsets: c.drip.offsets, next: map[group.MemberIndex]*c08Msg{}}
 	}
 	ctx, cancel := context.WithTimeout(context.Background(), budget)
 	defer cancel()
@@ -924,6 +1095,7 @@ func c08Sign(w *c08Wallet, signers map[group.MemberIndex]*signer, c *c08SignCase
 	done := make(chan struct{})
 	go func() { wg.Wait(); close(done) }()
 	hub.pump(done)
+	hub.dripWG.Wait()
 	out.timeout = ctx.Err() == context.DeadlineExceeded
 	out.stats = hub.stats
 	out.recorded = hub.recorded
@@ -955,11 +1127,26 @@ func c08CheckOutcome(t c08Fataler, w *c08Wallet, signers map[group.MemberIndex]*
 		// nobody reported a reason of its own: the run hit the budget. Only a
 		// control run on the plain fixture group tells a stuck protocol from a
 		// slow machine.
-		ok, cerr := c08Control(c08SignBudget)
+		budget := c08SignBudget()
+		controlStart := time.Now()
+		ok, cerr := c08Control(budget)
 		if cerr == nil && ok {
-			t.Fatalf("signing did not complete within %v (%s) while a plain signing of the contiguous fixture group completes: the protocol is stuck; %s", c08SignBudget, strings.Join(errs, "; "), where())
+			c08StallMu.Lock()
+			c08StallConfirmed, c08ControlTook = true, time.Since(controlStart)
+			c08StallMu.Unlock()
 		}
-		fmt.Printf("VERIF-INCONCLUSIVE: C08 signing and its control run did not complete within %v (%s; control error %v)\n", c08SignBudget, strings.Join(errs, "; "), cerr)
+		if cerr == nil && ok {
+			t.Fatalf("signing did not complete within %v (%s) while a plain signing of the contiguous fixture group completes: the protocol is stuck; %s", budget, strings.Join(errs, "; "), where())
+		}
+		c08StallMu.Lock()
+		minimising := c08StallConfirmed
+		c08StallMu.Unlock()
+		if minimising {
+			// rapid is minimising an established failure with the shorter
+			// budget: a candidate that cannot be confirmed is simply not taken
+			return
+		}
+		fmt.Printf("VERIF-INCONCLUSIVE: C08 signing and its control run did not complete within %v (%s; control error %v)\n", budget, strings.Join(errs, "; "), cerr)
 		t.Fatalf("VERIF-INCONCLUSIVE: machine too slow")
 	}
 	ref := out.sigs[c.subset[0]]
@@ -1009,7 +1196,7 @@ var (
 // while the next message of a batch is signed. One run per process.
 func c08ForeignSession() (map[int][]byte, error) {
 	c08ForeignOnce.Do(func() {
-		out, err := c08PlainFixtureSigning(&c08SignCase{subset: []group.MemberIndex{1, 2, 3}, message: big.NewInt(0xD0), record: 1}, c08SignBudget)
+		out, err := c08PlainFixtureSigning(&c08SignCase{subset: []group.MemberIndex{1, 2, 3}, message: big.NewInt(0xD0), record: 1}, c08FullSignBudget)
 		if err != nil {
 			c08ForeignErr = err
 			return
@@ -1131,7 +1318,9 @@ func c08DrawPlan(t *rapid.T, subset []group.MemberIndex, label string) (map[stri
 				switch {
 				case chaos == 1 && v < 2, chaos == 2 && v < 6:
 					plan[fmt.Sprintf("%d/%d/%d", s, ti, r)] = c08Hold
-				case chaos == 1 && v == 2, chaos == 2 && v < 8:
+				case chaos == 2 && v == 6:
+					// rare: the production transport filters retransmissions, a
+					// second copy must never be what rescues a run
 					plan[fmt.Sprintf("%d/%d/%d", s, ti, r)] = c08Dup
 				}
 			}
@@ -1184,6 +1373,9 @@ func c08SignLabels(w *c08Wallet, c *c08SignCase, kind string, out *c08SignOutcom
 	}
 	if len(c.inject) > 0 {
 		labels = append(labels, fmt.Sprintf("other-session-messages-of:%d-signers", len(c.inject)))
+	}
+	if c.drip != nil {
+		labels = append(labels, "drip", fmt.Sprintf("drip-boundary:%d", c.drip.boundary))
 	}
 	distinctOps := map[int]bool{}
 	for _, d := range w.operating {
@@ -1269,7 +1461,40 @@ func c08DrawSignCase(t *rapid.T, w *c08Wallet, label string, allowLarger bool) (
 	c.message, kind = c08DrawMessage(t, label+"Msg")
 	c.plan, c.chaos = c08DrawPlan(t, c.subset, label)
 	c.inject = c08DrawInject(t, c.subset, label)
+	c.drip = c08DrawDrip(t, c.subset, c.plan, label)
 	return c, kind
+}
+
+// c08DrawDrip draws (two thirds of the cases) a drip plan and clears the
+// ordinary plan for its receiver: that receiver gets every message exactly
+// once, no duplicates.
+func c08DrawDrip(t *rapid.T, subset []group.MemberIndex, plan map[string]int, label string) *c08Drip {
+	if rapid.SampledFrom([]int{1, 1, 0}).Draw(t, label+"Drip") == 0 {
+		return nil
+	}
+	perm := rapid.Permutation(append([]group.MemberIndex{}, subset...)).Draw(t, label+"DripReceiverAndLagSender")
+	d := &c08Drip{receiver: perm[0], lagSender: perm[1], offsets: map[group.MemberIndex]int{}}
+	// boundary 0 is the one with a message-less state (symmetric keys) in between
+	d.boundary = rapid.SampledFrom([]int{0, 0, 0, 0, 0, 1, 2, 3, 4, 5, 6, 7, 8}).Draw(t, label+"DripBoundary")
+	// the receiver crosses the boundary on a 100 ms tick 0..100 ms after the
+	// kept message and (boundary 0) stays 100 ms in the in-between state
+	for i, s := range perm[1:] {
+		switch i {
+		case 0:
+			d.offsets[s] = rapid.IntRange(90, 130).Draw(t, fmt.Sprintf("%sDripOffset%d", label, s))
+		case 1:
+			d.offsets[s] = rapid.IntRange(130, 250).Draw(t, fmt.Sprintf("%sDripOffset%d", label, s))
+		default:
+			d.offsets[s] = rapid.IntRange(0, 350).Draw(t, fmt.Sprintf("%sDripOffset%d", label, s))
+		}
+	}
+	for k := range plan {
+		var a, b, r int
+		if _, err := fmt.Sscanf(k, "%d/%d/%d", &a, &b, &r); err == nil && group.MemberIndex(r) == d.receiver {
+			delete(plan, k)
+		}
+	}
+	return d
 }
 
 // c08DrawInject picks the participants (none in a third of the cases) whose
@@ -1295,7 +1520,7 @@ func TestVerif_C08_FixtureWallets(t *testing.T) {
 		c08CheckFinalGroup(t, w)
 		signers := c08Register(t, w, reload)
 		c08Debugf("case: reload=%v %s; %s", reload, c.describe(), w.describe())
-		out, err := c08Sign(w, signers, c, c08SignBudget)
+		out, err := c08Sign(w, signers, c, c08SignBudget())
 		if err != nil {
 			t.Fatalf("harness: %v", err)
 		}
@@ -1360,6 +1585,7 @@ func TestVerif_C08_EverySubset(t *testing.T) {
 						sc.message, kind = c08DrawMessage(rt, label+"Msg")
 						sc.plan, sc.chaos = c08DrawPlan(rt, sc.subset, label)
 						sc.inject = c08DrawInject(rt, sc.subset, label)
+						sc.drip = c08DrawDrip(rt, sc.subset, sc.plan, label)
 						jobs = append(jobs, job{w, sc, kind})
 					}
 				}
@@ -1381,7 +1607,7 @@ func TestVerif_C08_EverySubset(t *testing.T) {
 				defer wg.Done()
 				sem <- struct{}{}
 				defer func() { <-sem }()
-				results[i].out, results[i].err = c08Sign(jobs[i].w, signers, jobs[i].c, c08SignBudget)
+				results[i].out, results[i].err = c08Sign(jobs[i].w, signers, jobs[i].c, c08SignBudget())
 			}(i)
 		}
 		wg.Wait()
@@ -1631,7 +1857,7 @@ func TestVerif_C08_DkgWallets(t *testing.T) {
 		}
 		signers := c08Register(t, w, reload)
 		for i, c := range cases {
-			out, err := c08Sign(w, signers, c, c08SignBudget)
+			out, err := c08Sign(w, signers, c, c08SignBudget())
 			if err != nil {
 				t.Fatalf("harness: %v", err)
 			}
